@@ -1,4 +1,5 @@
 import Acra.Lemmas.Ch11MIL1553
+import Acra.Lemmas.ReviewC08Records
 namespace Acra.Props.C08
 open Acra.Py Acra.Model.Ch11Pay Acra.Model.Ch11Pay.MIL1553 Acra.Gen.Ch11MIL1553 Acra.Lemmas.Ch11MIL1553
 
@@ -96,5 +97,80 @@ theorem MIL_items_le (t : Packet) (buf : Bytes) (h : (Packet.unpack t buf).2 = .
   rename_i ms hd
   intro _
   exact decOff_items_le (decMsg t.proto) more1553 buf (decMsg_progress _ (MIL_proto_nofuel t)) _ 4 ms hd
+
+/-- [review] the per-iteration bound for the loop step: an accepted message advances by the 14-byte
+    intra-packet header plus the declared length -/
+theorem decMsg_advance_ge (proto : R Msg) (b : Bytes) (m : Msg) (n : Nat) (h : decMsg proto b = .ok (m, n)) :
+    14 ≤ n ∧ n = 14 + m.length ∧ 14 ≤ b.length := by
+  cases proto with
+  | error e => simp [decMsg] at h
+  | ok m0 =>
+    simp only [decMsg] at h
+    cases hu : Msg.unpack m0 b with
+    | mk m' r =>
+      rw [hu] at h
+      cases r with
+      | error e => simp at h
+      | ok k =>
+        simp only [Except.ok.injEq, Prod.mk.injEq] at h
+        obtain ⟨rfl, rfl⟩ := h
+        simp only [Msg.unpack] at hu
+        repeat' split at hu
+        all_goals simp_all
+        rename_i hh
+        have := structUnpackFrom_ok_length _ _ _ _ hh
+        simp only [MSG_unpack_fmt0, Fmt.size, codesSize, Code.size] at this
+        obtain ⟨h1, h2⟩ := hu
+        subst h1
+        simp only
+        omega
+
+/-- [review] witness: RTC-stamped packet with two messages (lengths 0 and 3) -/
+def wMIL : Bytes :=
+  [2, 0, 0, 192,  1, 0, 0, 0, 0, 0, 0, 0, 0, 0, 0, 0, 0, 0,  77, 0, 0, 0, 0, 0, 0, 0, 255, 255, 3, 0, 3, 0, 1, 2, 3]
+
+example : (Packet.unpack ⟨[], 0, 0, some 0⟩ wMIL).2 = .ok () ∧
+    (Packet.unpack ⟨[], 0, 0, some 0⟩ wMIL).1.messages = [⟨.rtc 1, 0, 0, 0, []⟩, ⟨.rtc 77, 0xFFFF, 3, 3, [1, 2, 3]⟩] := ⟨by rfl, by rfl⟩
+example : Msg.unpack (Msg.fresh (.rtc 0)) (wMIL.drop 18) = (⟨.rtc 77, 0xFFFF, 3, 3, [1, 2, 3]⟩, .ok 17) := by rfl
+example : Packet.proto ⟨[], 0, 0, some 0⟩ = .ok (Msg.fresh (.rtc 0)) ∧
+    decMsg (Packet.proto ⟨[], 0, 0, some 0⟩) (wMIL.drop 18) = .ok (⟨.rtc 77, 0xFFFF, 3, 3, [1, 2, 3]⟩, 17) := ⟨by rfl, by rfl⟩
+
+/-- [review] work bound with the real stride: at most ⌈(|buf| − 4)/14⌉ messages -/
+theorem MIL_items_stride (t : Packet) (buf : Bytes) (h : (Packet.unpack t buf).2 = .ok ()) :
+    (Packet.unpack t buf).1.messages.length * 14 ≤ (buf.length - 4) + 13 := by
+  revert h
+  simp only [Packet.unpack]
+  repeat' split
+  all_goals try (simp; done)
+  rename_i ms hd
+  intro _
+  exact Acra.Lemmas.ReviewC08.decOff_items_stride (decMsg t.proto) more1553 buf (decMsg_progress _ (MIL_proto_nofuel t)) 14
+    (fun b x n hb => (decMsg_advance_ge _ b x n hb).1) _ 4 ms hd
+/-! ### review additions (rev1-C08): outcome lists — the element decoders have no loop and no fuel in their models, so
+    `≠ .error .fuel` holds by construction; what C08 says about them is which ordinary exceptions can occur -/
+
+theorem Ipts_unpack_outcomes (t : Ipts) (buf : Bytes) :
+    (∃ i, Ipts.unpack t buf = .ok i) ∨ Ipts.unpack t buf = .error .struct ∨ Ipts.unpack t buf = .error .attribute := by
+  cases t <;> simp only [Ipts.unpack]
+  · repeat' split
+    all_goals first
+      | (simp; done)
+      | (rename_i e h; have := structUnpack_error _ _ _ h; subst this; simp)
+  · repeat' split
+    all_goals first
+      | (simp; done)
+      | (rename_i e h; have := structUnpack_error _ _ _ h; subst this; simp)
+  · simp
+
+theorem MILMsg_unpack_outcomes (t : Msg) (buf : Bytes) :
+    (∃ n, (Msg.unpack t buf).2 = .ok n) ∨ (Msg.unpack t buf).2 = .error .struct ∨
+    (Msg.unpack t buf).2 = .error .attribute := by
+  simp only [Msg.unpack]
+  have hi := Ipts_unpack_outcomes t.ipts (buf.take 8)
+  repeat' split
+  all_goals first
+    | (simp; done)
+    | (rename_i e h; rw [h] at hi; simpa using hi)
+    | (rename_i e h; have := structUnpackFrom_error _ _ _ _ h; subst this; simp)
 
 end Acra.Props.C08
